@@ -52,8 +52,8 @@ Proof. induction xs as [|x r IH]; intros core bi res H.
   + cbn [app] in *. rewrite IH; rewrite E; cbn [fst snd]; [reflexivity | exact H]. Qed.
 
 (** ** the data loop reads the bits of a byte, MSB first *)
-Definition next_b (b : N) : N := u8 (N.shiftl b C.conv_byte_shift).
-Definition top_bit (b : N) : N := N.shiftr (N.land b C.conv_msb_mask) C.conv_msb_shift.
+Definition next_b (b : N) : N := u8 (N.shiftl b ConstsModulator.conv_byte_shift).
+Definition top_bit (b : N) : N := N.shiftr (N.land b ConstsModulator.conv_msb_mask) ConstsModulator.conv_msb_shift.
 Fixpoint byte_xs (n : nat) (b : N) : list N :=
   match n with O => [] | S n' => top_bit b :: byte_xs n' (next_b b) end.
 
@@ -81,7 +81,7 @@ Proof. intros Hb. pose proof (below_spec 8 xs_ok xs_sweep b Hb) as S. unfold xs_
 Lemma conv_data_byte_bits full b : b < 256 ->
   conv_data_byte full b = fold_left (conv_bit 0) (map b2n (byte_bits b)) full.
 Proof. intros Hb. unfold conv_data_byte. rewrite data_bits_fold. rewrite seq_length.
-  change C.conv_bits_per_byte with 8%nat. rewrite byte_xs_bits by exact Hb. reflexivity. Qed.
+  change ConstsModulator.conv_bits_per_byte with 8%nat. rewrite byte_xs_bits by exact Hb. reflexivity. Qed.
 
 Lemma conv_data_bytes_bits data : all_bytes data -> forall full,
   fold_left conv_data_byte data full = fold_left (conv_bit 0) (map b2n (bytes_bits data)) full.
@@ -124,7 +124,7 @@ Definition run_ok (site : nat) (xs : list N) (bits : list bool) (nbytes : nat) (
 Definition byte_ok2 (m b : N) : bool := run_ok 0 (map b2n (byte_bits b)) (byte_bits b) 2 m.
 Lemma conv_byte_sweep : below 5 (fun m => below 8 (byte_ok2 m)) = true.
 Proof. vm_cast_no_check (eq_refl true). Qed.
-Lemma conv_flush_sweep : below 5 (run_ok 1 (repeat 0 C.conv_flush) (repeat false 4) 1) = true.
+Lemma conv_flush_sweep : below 5 (run_ok 1 (repeat 0 ConstsModulator.conv_flush) (repeat false 4) 1) = true.
 Proof. vm_cast_no_check (eq_refl true). Qed.
 
 Lemma run_ok_elim site xs bits n m : run_ok site xs bits n m = true ->
@@ -149,7 +149,7 @@ Proof. intros Hm Hb. apply run_ok_elim.
   exact (below_spec 8 _ (below_spec 5 _ conv_byte_sweep m Hm) b Hb). Qed.
 
 Lemma conv_flush_step m : m < 32 ->
-  exists m' em, core_run 1 (0, 0, m) (repeat 0 C.conv_flush) = ((0, 0, m'), em) /\ m' < 32 /\ length em = 1%nat /\ all_bytes em
+  exists m' em, core_run 1 (0, 0, m) (repeat 0 ConstsModulator.conv_flush) = ((0, 0, m'), em) /\ m' < 32 /\ length em = 1%nat /\ all_bytes em
                 /\ conv_run (mem_abs m) (repeat false 4) = (mem_abs m', bytes_bits em).
 Proof. intros Hm. apply run_ok_elim. exact (below_spec 5 _ conv_flush_sweep m Hm). Qed.
 
@@ -179,7 +179,7 @@ Theorem conv_encode_spec result0 data : all_bytes data -> (length data <= 127)%n
   length result0 = conv_out_len (length data) ->
   bytes_bits (conv_encode result0 data) = spec_conv (bytes_bits data)
   /\ all_bytes (conv_encode result0 data) /\ length (conv_encode result0 data) = conv_out_len (length data).
-Proof. intros Hd Ln Lr. unfold conv_out_len in *. change C.conv_out_mul with 2%nat in *. change C.conv_out_add with 1%nat in *.
+Proof. intros Hd Ln Lr. unfold conv_out_len in *. change ConstsModulator.conv_out_mul with 2%nat in *. change ConstsModulator.conv_out_add with 1%nat in *.
   destruct (conv_bytes_run data Hd 0 eq_refl) as [m1 [em1 [R1 [L1 [N1 [A1 C1]]]]]].
   destruct (conv_flush_step m1 L1) as [m2 [em2 [R2 [L2 [N2 [A2 C2]]]]]].
   unfold conv_encode. rewrite conv_data_bytes_bits by exact Hd.
